@@ -117,6 +117,14 @@ def check(ctx):
     inst_zoo = [("sv", "module m; %s endmodule\n" % t) for t in INST] + [("sv", "module m; generate if (1) begin : g %s end endgenerate endmodule\n" % t) for t in INST[:6]]
     spec_set |= set(inst_zoo)
     srcs += inst_zoo
+    # deep nesting (anything counted per activation): the speculative paths of the grammar are several times deeper than the path
+    # that succeeds
+    deep_zoo = [("sv", "module m; assign x = " + "(" * k + "a" + ")" * k + "; endmodule\n") for k in (40, 86, 100, 130)]
+    deep_zoo += [("sv", "module m; assign x = " + "(b + " * k + "a" + ")" * k + "; endmodule\n") for k in (30, 52, 60)]
+    deep_zoo += [("sv", "module m; assign x = " + "(c ? " * k + "a" + " : d)" * k + "; endmodule\n") for k in (30, 64, 70)]
+    deep_zoo += [("sv", "module m; initial " + "begin " * k + "x = 1; " + "end " * k + "endmodule\n") for k in (60, 120)]
+    deep_set = set(deep_zoo)
+    srcs += deep_zoo if not q else [deep_zoo[1], deep_zoo[2], deep_zoo[5], deep_zoo[8]]
     # long operands: enough memo insertions between two uses of an entry to evict it at the default capacity
     longs = []
     for n in ((7, 9, 20) if q else (5, 6, 7, 8, 9, 12, 18, 19, 20, 24, 40)):
@@ -132,7 +140,9 @@ def check(ctx):
     for i, (k, s) in enumerate(srcs):
         small = (len(s) <= 120 or k == "pp") and (k, s) not in longs     # the long operands are exponential at tiny capacities
         caps = CAPS_SMALL if small else CAPS_BIG
-        if (k, s) in spec_set:
+        if (k, s) in deep_set:
+            caps = ("256", "1024", "none")
+        elif (k, s) in spec_set:
             caps = ("8", "16", "48", "64", "200", "1024", "none") if (k, s) in set(inst_zoo) else ("16", "48", "64", "200", "1024", "none")   # backtracking-heavy: tiny capacities take minutes
         for cap in caps:
             c = Case("m%d_%s" % (i, cap))
